@@ -122,6 +122,16 @@ def gen(rng, tier, quarantine=()):
         kinds["bad"] = "refused"
     nsteps = rng.randint(4, 12) if tier == "quick" else rng.randint(6, 28)
     inactive = [f"p{i}" for i in range(nprobes)] + (["bad"] if "bad" in kinds else [])
+    if "no-tagged-capture" not in quarantine and rng.random() < 0.2:
+        # one more probe on a variable the others may share, restricted to the bindings that carry
+        # a tag (x:@A): it instruments fewer places than a plain capture of x does, and must not
+        # take anything away from the plain ones (workload only: its own stream is not judged)
+        f = rng.choice(fns)
+        ops.append({"op": "mk", "id": "tg", "kind": "probe", "nojudge": True, "inv": "C05.exactly_once",
+                    "sels": [{"levels": [{"fn": f, "caps": [], "sibs": []}],
+                              "focus": {"var": "x", "as": "x", "tag": "@A"}}]})
+        kinds["tg"] = "global"
+        inactive.insert(rng.randint(0, len(inactive)), "tg")
     blocks = []  # stack of active block probes
     active = []
     pc = rng.choice([0.6, 0.8])
